@@ -38,6 +38,11 @@ def stmt_defs(node: Node):
                         out[e.id] = ("unpack", a.value, i)
                     elif isinstance(e, ast.Starred) and isinstance(e.value, ast.Name):
                         out[e.value.id] = ("unpack*", a.value, i)
+                    elif isinstance(e, (ast.Tuple, ast.List)):
+                        # nested pattern: every name in it is bound by this statement
+                        for n in ast.walk(e):
+                            if isinstance(n, ast.Name):
+                                out[n.id] = ("unpack-nested", a.value, i)
     elif isinstance(a, ast.AnnAssign) and isinstance(a.target, ast.Name) and a.value is not None:
         out[a.target.id] = ("expr", a.value)
     elif isinstance(a, ast.AugAssign) and isinstance(a.target, ast.Name):
